@@ -26,6 +26,7 @@ ASSUMPTIONS = [
     "perturbations from a 6-element (thorough 64-element) lattice with |m_i| <= 3 px and max_shifts = 3.5 px; searched sets of 3 and 9 rotations",
     "accuracy demanded: 0.25 px per axis for ZNCC/NCC, 0.5 px for PCC, 1e-3 rad for the orientation (the statement's 'sub-pixel')",
     "template-free alignment is only defined up to a common frame: the oracle there is mutual consistency of the outputs (0.5 px)",
+    "loader kinds added during the seeding waves: grouped alignment with per-group templates / template lists (a different particle per group), template-free alignment with a rotation search (single and grouped), multi-template and template-free grouped kinds",
 ]
 
 M_QUICK = [(0, 0, 0), (2, 0, 0), (0, -2.5, 0), (0, 0, 3), (2, -3, 1), (-1.5, 2, -2)]
